@@ -15,6 +15,18 @@ structure St where
   t : ScoreSpec.Table := []
   termTab : AMap Nat (List Nat) := []
   globTab : AMap Nat (List Nat) := []
+  /-- the index's `K1` / `B` attributes (`cfg k1` / `cfg b`: overridden on a subclass or on the instance) -/
+  k1 : Float := 12 / 10
+  b : Float := 75 / 100
+  /-- `cfg loop c`: the compiled scoring loop, which keeps the constants of okascore.c whatever the attributes say -/
+  cLoop : Bool := false
+
+/-- what the real index computes with: the loop's `K1`, `B` and `query_weight`'s `K1` -/
+def modelP (st : St) : Bm25 Float :=
+  if st.cLoop then { k1 := 12 / 10, b := 75 / 100, kq := st.k1 } else { k1 := st.k1, b := st.b, kq := st.k1 }
+
+/-- what the documentation promises: the formulas with the index's `K1`, `B` -/
+def specP (st : St) : Bm25 Float := { k1 := st.k1, b := st.b, kq := st.k1 }
 
 def showF (x : Float) : String := toString x.toBits.toNat
 def float? (t : String) : Option Float := t.toNat?.map (fun n => Float.ofBits (UInt64.ofNat n))
@@ -64,6 +76,13 @@ where
 
 def spec (st : St) (f : Int → Option Float) : String := showMap (ScoreSpec.asMap st.t f)
 
+def specScore (st : St) (wids : List Nat) : Int → Option Float :=
+  @ScoreSpec.score Float _ (specP st) st.kind st.t wids
+def specPhrase (st : St) (wids : List Nat) : Int → Option Float :=
+  @ScoreSpec.phraseScore Float _ (specP st) st.kind st.t wids
+def mApply (st : St) (t : Tree) : Except ApplyErr (Option (AMap Int Float)) :=
+  @Score.apply Float _ (modelP st) st.kind st.s (lexOf st) t
+
 /-- `k v k v …` (values as bit patterns) -/
 def pairs? : List String → Option (AMap Int Float)
   | [] => some []
@@ -84,6 +103,16 @@ def step (st : St) (toks : List String) : St × String :=
   match toks with
   | ["cfg", "kind", "okapi"] => ({ st with kind := .okapi }, "ok")
   | ["cfg", "kind", "cosine"] => ({ st with kind := .cosine }, "ok")
+  | ["cfg", "k1", x] =>
+    match float? x with
+    | some x => ({ st with k1 := x }, "ok")
+    | none => (st, "bad-op")
+  | ["cfg", "b", x] =>
+    match float? x with
+    | some x => ({ st with b := x }, "ok")
+    | none => (st, "bad-op")
+  | ["cfg", "loop", "c"] => ({ st with cLoop := true }, "ok")
+  | ["cfg", "loop", "python"] => ({ st with cLoop := false }, "ok")
   | "cfg" :: _ => (st, "ok")
   | "index" :: d :: ws =>
     match d.toInt?, natList? ws with
@@ -116,33 +145,34 @@ def step (st : St) (toks : List String) : St × String :=
     match id.toNat? with
     | some id =>
       let wids := (lexOf st).termWids [[id]]
-      match (search st.kind st.s wids : Option (Res Float)) with
+      match (@search Float _ (modelP st) st.kind st.s wids : Option (Res Float)) with
       | none => (st, "none")
-      | some r => (st, showRes r ++ " ## " ++ spec st (ScoreSpec.score st.kind st.t wids))
+      | some r => (st, showRes r ++ " ## " ++ spec st (specScore st wids))
     | none => (st, "bad-op")
   | ["glob", id] =>
     match id.toNat? with
     | some id =>
       let wids := (lexOf st).globWids [id]
-      (st, showRes (searchGlob st.kind st.s wids) ++ " ## " ++ spec st (ScoreSpec.score st.kind st.t wids))
+      (st, showRes (@searchGlob Float _ (modelP st) st.kind st.s wids) ++ " ## " ++ spec st (specScore st wids))
     | none => (st, "bad-op")
   | ["phrase", id] =>
     match id.toNat? with
     | some id =>
       let wids := (lexOf st).termWids [[id]]
-      (st, showRes (searchPhrase st.kind st.s wids) ++ " ## " ++
-        spec st (ScoreSpec.phraseScore st.kind st.t wids))
+      (st, showRes (@searchPhrase Float _ (modelP st) st.kind st.s wids) ++ " ## " ++
+        spec st (specPhrase st wids))
     | none => (st, "bad-op")
   | "qw" :: ids =>
     match natList? ids with
     | some ids =>
       let wids := ids.flatMap (fun id => (lexOf st).termWids [[id]])
-      (st, showF (queryWeight st.kind st.s wids) ++ " ## " ++ showF (ScoreSpec.queryWeight st.kind st.t wids))
+      (st, showF (@queryWeight Float _ (modelP st) st.kind st.s wids) ++ " ## " ++
+        showF (@ScoreSpec.queryWeight Float _ (specP st) st.kind st.t wids))
     | none => (st, "bad-op")
   | "apply" :: rest =>
     match tree? rest with
     | some (t, []) =>
-      match (Score.apply st.kind st.s (lexOf st) t : Except ApplyErr (Option (AMap Int Float))) with
+      match mApply st t with
       | .ok none => (st, "none")
       | .ok (some m) => (st, showMap m)
       | .error .queryError => (st, "err QueryError")
@@ -152,7 +182,7 @@ def step (st : St) (toks : List String) : St × String :=
     -- are all normalised scores in (0, 1] (up to rounding)?  the specification says yes
     match tree? rest with
     | some (t, []) =>
-      match (Score.apply st.kind st.s (lexOf st) t : Except ApplyErr (Option (AMap Int Float))) with
+      match mApply st t with
       | .ok none => (st, "none ## none")
       | .ok (some m) =>
         let bad := m.filter (fun p => !(0 < p.2 && p.2 ≤ 1 + 1e-6))
@@ -163,7 +193,7 @@ def step (st : St) (toks : List String) : St × String :=
   | "applysort" :: rev :: lim :: rest =>
     match boolTok? rev, optInt? lim, tree? rest with
     | some rev, some lim, some (t, []) =>
-      match (Score.apply st.kind st.s (lexOf st) t : Except ApplyErr (Option (AMap Int Float))) with
+      match mApply st t with
       | .ok none => (st, "none")
       | .ok (some m) =>
         match TextSort.sort (.weighted m) rev lim with
@@ -194,7 +224,8 @@ def step (st : St) (toks : List String) : St × String :=
     match float? idfv, float? mean, triples? rest with
     | some idfv, some mean, some tr =>
       let d2len : Int → Nat := fun d => ((tr.find? (fun p => p.1 == d)).map (fun p => p.2.2)).getD 0
-      let m : AMap Int Float := scoreLoop (tr.map (fun p => (p.1, p.2.1))) d2len idfv mean
+      -- the C function: its own constants, whatever the index's attributes
+      let m : AMap Int Float := @scoreLoop Float _ Bm25.default (tr.map (fun p => (p.1, p.2.1))) d2len idfv mean
       -- specification: the docstring's TF with the given mean, times the given idf
       let sp : AMap Int Float := tr.map (fun p =>
         let f := Float.ofNat p.2.1
